@@ -11,11 +11,17 @@ def run(ctx, res):
     ndocs = max(t["doc"] for t in triples)
     scs, docs = c04.base_documents(ctx, ndocs)
     cases, skipped = [], 0
+    kinds = {}
+    for sc in scs:
+        ds = sc["model"]["defs"]
+        kinds[sc["name"]] = {"enum": next((d["name"] for d in ds if d["k"] == "enum"), None),
+                             "input": next((d["name"] for d in ds if d["k"] == "input"), None),
+                             "scalar": next((d["name"] for d in ds if d["k"] == "scalar"), "Int")}
     for t in triples:
         base = docs[t["doc"] - 1]
         op = G2.OPERATORS[t["operator"] - 1]
         root_doc = base["files"][0]["doc"]
-        m = G2.inject(root_doc, op, t["site"], "Lone")
+        m = G2.inject(root_doc, op, t["site"], "Lone", kinds[base["schema"]])
         if m is None:
             skipped += 1
             continue
@@ -27,8 +33,8 @@ def run(ctx, res):
         for _ in range(20000):
             base = docs[ctx.rng.below(len(docs))]
             o1, o2 = ctx.rng.choice(G2.OPERATORS), ctx.rng.choice(G2.OPERATORS)
-            m = G2.inject(base["files"][0]["doc"], o1, ctx.rng.below(4), "Lone")
-            m = m and G2.inject(m, o2, ctx.rng.below(4), "Lone")
+            m = G2.inject(base["files"][0]["doc"], o1, ctx.rng.below(4), "Lone", kinds[base["schema"]])
+            m = m and G2.inject(m, o2, ctx.rng.below(4), "Lone", kinds[base["schema"]])
             if m:
                 cases.append({"schema": base["schema"], "files": [{"path": base["files"][0]["path"], "doc": m}] + base["files"][1:], "root": base["root"],
                               "mode": "fault", "fault": {"operator": o1 + "+" + o2, "site": -1, "doc": -1}, "base": base["files"]})
